@@ -1,6 +1,6 @@
 (** C27 — Invalid blocks are rejected without side effects or poisoning. *)
 From Coq Require Import List ZArith NArith Bool.
-From C33 Require Import C27.Model C27.Proofs C27.ProofsRefute C27.Proofs2 C27.Proofs3 C27.ProofsExamples.
+From C33 Require Import C27.Model C27.Proofs C27.ProofsRefute C27.Proofs2 C27.Proofs3 C27.Proofs4 C27.ProofsExamples.
 Import ListNotations.
 Open Scope Z_scope.
 
@@ -63,22 +63,67 @@ Theorem C27_no_poison_nonvacuous :
 Proof. exact no_poison_nonvacuous. Qed.
 Print Assumptions C27_no_poison_nonvacuous.
 
+(** "Rejected blocks are as if they had never arrived" still fails at full
+    strength, through the reorganisation that is not rolled back and through
+    poisoning (findings 2 and 1) ... *)
 Theorem C27_rejected_invisible_refuted : ~ C27_rejected_invisible_full.
 Proof. exact rejected_invisible_refuted. Qed.
 Print Assumptions C27_rejected_invisible_refuted.
+
+(** ... and holds for every history whose rejected deliveries are below the
+    reorganisation margin, share their hash with no valid delivery and are
+    nobody's parent: on any path, before or after their parents, in any
+    position of the orphan pool (ProcessOrphans drops a refused orphan and
+    goes on with its siblings). *)
+Theorem C27_rejected_invisible_partial :
+  forall (verr : N -> N -> N) (fin : Z) (g : block) (hist : list item),
+    quiet_rejects verr fin g hist = true ->
+    vmain (vrun verr fin g hist) = vmain (vrun verr fin g (filter (valid_item verr) hist))
+    /\ vtip (vrun verr fin g hist) = vtip (vrun verr fin g (filter (valid_item verr) hist)).
+Proof. exact rejected_invisible_partial. Qed.
+Print Assumptions C27_rejected_invisible_partial.
+
+Theorem C27_rejected_invisible_nonvacuous :
+  quiet_rejects q_verr 0 o_root q_hist = true
+  /\ length (filter (fun j => negb (valid_item q_verr j)) q_hist) = 2%nat
+  /\ vmain (vrun q_verr 0 o_root q_hist) = [5; 2; 1; 0]%N
+  /\ vorph (vrun q_verr 0 o_root q_hist) = []
+  /\ quiet_rejects w_verr 0 w_root (w_trunk ++ [w_side12; w_bad13]) = false.
+Proof. exact invisible_nonvacuous. Qed.
+Print Assumptions C27_rejected_invisible_nonvacuous.
+
+(** the history that the unrepaired ProcessOrphans got wrong: block 3 (fails a
+    check) and block 2 wait for block 1, 3 in front; block 1 is answered
+    without error and 2 becomes the tip *)
+Theorem C27_orphan_siblings_connected :
+  vmain (vrun o_verr 0 o_root o_hist) = [2; 1; 0]%N
+  /\ vmain (vrun o_verr 0 o_root (filter (valid_item o_verr) o_hist)) = [2; 1; 0]%N
+  /\ vorph (vrun o_verr 0 o_root o_hist) = []
+  /\ snd (vdeliver o_verr 0 (vrun o_verr 0 o_root (firstn 2 o_hist)) (mkI (mkB 1 0 1 1) 0 PBcast)) = (true, false, VNone).
+Proof. exact orphan_history_invisible. Qed.
+Print Assumptions C27_orphan_siblings_connected.
 
 Theorem C27_no_panic_refuted : ~ C27_no_panic_full.
 Proof. exact no_panic_refuted. Qed.
 Print Assumptions C27_no_panic_refuted.
 
-(** With only valid deliveries the model makes exactly the moves of C25's
-    chain-selection model (to which C25_converges applies). *)
+(** With only valid deliveries and heights that are consistent along the
+    parent links the model makes exactly the moves of C25's chain-selection
+    model (to which C25_converges, which assumes such heights, applies). *)
 Theorem C27_valid_refines_C25 :
   forall (verr : N -> N -> N) (g : block),
     verr (bid g) 0%N = 0%N ->
     forall (fin : Z) (hist : list item),
       (forall i, In i hist -> verr (ihash i) (ibody i) = 0%N) ->
+      hconsb (g :: map iblk hist) = true ->
       vmain (vrun verr fin g hist) = main (run fin g (map iblk hist))
       /\ vtip (vrun verr fin g hist) = tip (run fin g (map iblk hist)).
 Proof. exact valid_refines_C25. Qed.
 Print Assumptions C27_valid_refines_C25.
+
+Theorem C27_valid_refines_nonvacuous :
+  hconsb (o_root :: map iblk o_hist) = true
+  /\ vmain (vrun (fun _ _ => 0%N) 0 o_root o_hist) = [3; 1; 0]%N
+  /\ hconsb (o_root :: map iblk [mkI (mkB 1 0 1 1) 0 PBcast; mkI (mkB 2 1 3 1) 0 PBcast]) = false.
+Proof. exact refines_nonvacuous. Qed.
+Print Assumptions C27_valid_refines_nonvacuous.
